@@ -74,3 +74,10 @@ def kf_ncpy_backward_bumper_before_slen(case, o, kind, cfg, consts):
     w = m['w']
     d0 = m['dest'][1] // w; s0 = m['src'][1] // w
     return s0 < d0 and s0 + m['slen'] == d0 and m['srclen'] >= m['slen'] and o.ret == '404'
+
+@pred
+def kf_cpy_same_pointer(case, o, kind, cfg, consts):
+    # strcpy_s/wcscpy_s(dest, dmax, dest): "if (dest == src) return EOK" -- nothing is checked or cleared
+    m = case.meta
+    if m['kind'] != 'cpy' or m['dest'] is None or m['dest'] != m.get('src'): return False
+    return o.ret == '0' and not o.handlers and all(o.blocks[i] == b for i, (_, b) in enumerate(case.blocks))
